@@ -6,6 +6,9 @@ use serde_json::json;
 
 fn one<X: Sx>(ctx: &Ctx, idx: u64, l: usize, hdr_class: usize, msg_class: usize, big: usize) {
     let mut r = ctx.rng("c01", idx);
+    if l <= 300 {
+        history_warmup::<X>(ctx, &mut r, l);
+    }
     let (sk, pk) = keypair::<X>(&mut r);
     let hdr = match hdr_class % 6 {
         0 => Hdr::Absent,
@@ -33,6 +36,22 @@ fn one<X: Sx>(ctx: &Ctx, idx: u64, l: usize, hdr_class: usize, msg_class: usize,
     let v = ctx.call("verify", &sig_s, Some(l as u64 + 64), || sig.verify(&pk, m_opt, hdr.as_opt()));
     if !v.outcome.is_ok() {
         ctx.violation("C01:verify-failed", json!({"case":sig_s,"outcome":v.outcome.short(),"sk":hx(&sk.to_bytes()),"header":hx(hdr.octets()),"messages":msgs_json(&msgs),"sig":hx(&bytes)}));
+    }
+    // a verifier with no history in common with the signer (fresh thread): same bytes when signing again, and the
+    // signature verifies there
+    {
+        let (b2, v2) = on_fresh_thread(|| {
+            let again = ctx.call("sign", &sig_s, Some(l as u64 + 64), || Sig::<X>::sign(m_opt, &sk, &pk, hdr.as_opt()));
+            let dec = Sig::<X>::from_bytes(&bytes);
+            let v = dec.ok().map(|d| ctx.call("verify", &sig_s, Some(l as u64 + 64), || d.verify(&pk, m_opt, hdr.as_opt())).outcome);
+            (again.value.map(|s| s.to_bytes()), v)
+        });
+        if b2 != Some(bytes) {
+            ctx.violation("C01:signature-depends-on-thread-history", json!({"case":sig_s,"here":hx(&bytes),"fresh_thread":b2.map(|b| hx(&b))}));
+        }
+        if !matches!(v2, Some(Outcome::Ok)) {
+            ctx.violation("C01:verify-on-fresh-thread-failed", json!({"case":sig_s,"outcome":v2.map(|o| o.short()),"sig":hx(&bytes)}));
+        }
     }
     // 80-byte encoding round trip
     let d = ctx.call("from_bytes", &sig_s, None, || Sig::<X>::from_bytes(&bytes));
